@@ -311,6 +311,12 @@ where
                 self.execute_code_block(block.body(), cb_table)?;
             }
 
+            // the loop can be exited only if the condition on the top of the stack is ZERO
+            let condition = self.stack.peek();
+            if condition != ZERO {
+                return Err(ExecutionError::NotBinaryValue(condition));
+            }
+
             // end the LOOP block and drop the condition from the stack
             self.end_loop_block(block, true)
         } else if condition == ZERO {
